@@ -14,9 +14,10 @@ import (
 )
 
 var verifHarnesses = map[string]func(){
-	"VerifC07_QueryFragmentIndependent": VerifC07_QueryFragmentIndependent,
-	"VerifC07_DocumentedFunction":       VerifC07_DocumentedFunction,
-	"VerifC08_ChainEvaluation":          VerifC08_ChainEvaluation,
+	"VerifC07_QueryFragmentIndependent":            VerifC07_QueryFragmentIndependent,
+	"VerifC07_DocumentedFunction":                  VerifC07_DocumentedFunction,
+	"VerifC08_ChainEvaluation":                     VerifC08_ChainEvaluation,
+	"VerifC08_VerdictIndependentOfEarlierRequests": VerifC08_VerdictIndependentOfEarlierRequests,
 }
 
 func kitReq(path string, headers map[string]string) *envoy.CheckRequest {
